@@ -34,6 +34,31 @@ func init() {
 			return true
 		})
 		o.p("def verifyReturnNilInLoop : Nat := %d\ndef verifyHandlersCallDepth : String := %s\n", retNil, leanStr(depth))
+		// Runner.killJob and every place that gives a ticket back: a kill only cancels the run's context, the ticket is
+		// returned by the run itself (job.Run's deferred returnTicket) and by nobody else
+		kj := mustFunc("internal/jobs/runner.go", "Runner", "killJob")
+		o.p("def skeleton_killJob : List String := %s\n", leanList(skeleton(kj.Body,
+			suffixIn("runningJob", "cancel", "returnTicket", "AfterFunc", "Sleep", "borrowTicket"), nil)))
+		var returners []string
+		for _, rel := range []string{"internal/jobs/runner.go", "internal/jobs/job.go", "internal/jobs/scheduler.go", "internal/jobs/raffle.go", "internal/jobs/error_handler.go"} {
+			f := load(rel)
+			if f == nil {
+				continue
+			}
+			for _, d := range f.f.Decls {
+				fd, ok := d.(*ast.FuncDecl)
+				if !ok || fd.Body == nil {
+					continue
+				}
+				ast.Inspect(fd.Body, func(n ast.Node) bool {
+					if ce, ok := n.(*ast.CallExpr); ok && strings.HasSuffix(oneLine(str(ce.Fun)), "returnTicket") {
+						returners = append(returners, recvName(fd)+"."+fd.Name.Name)
+					}
+					return true
+				})
+			}
+		}
+		o.p("def ticketReturners : List String := %s\n", leanList(returners))
 		// job.Run: deferred calls in order of appearance
 		run := mustFunc("internal/jobs/job.go", "job", "Run")
 		var defers []string
